@@ -51,6 +51,7 @@ type FuncContract struct {
 	Pure      bool
 	Trusted   bool   // body not verified (assumed contract on repository code)
 	Assumed   bool   // came from /verif/contracts/assumed (dependency)
+	Deterministic bool // no value depending on Go map iteration order, time or randomness
 	NoPanic   bool   // no explicit panic statement of the function is reachable
 	Borrows   bool   // pointer arguments are not retained by the callee
 	NoFrame   bool   // do not generate frame obligation
@@ -491,6 +492,8 @@ func parseFuncClause(f *FuncContract, file string, ln int, kw, rest string) erro
 		f.Borrows = true
 	case "nopanic":
 		f.NoPanic = true
+	case "deterministic":
+		f.Deterministic = true
 	case "requires", "ensures", "retassert":
 		c, err := mkClause(file, ln, rest)
 		if err != nil {
